@@ -4,6 +4,7 @@ A plan is explicit data: object recipes + an ordered list of steps (the schedule
 ``random.Random`` handed in: no library call, no set iteration, no clock.  Replay never goes through this module.
 """
 import copy
+import json
 
 from bcsim import specs
 from bcsim.ops import REGISTRY, BY_NAME
@@ -601,6 +602,12 @@ def _annotation_roots(pb, rng, size):
         tg = twin["parent"]["genome"]
         tg["seq"] = tg["seq"].translate(str.maketrans("ACGT", "CATG"))
         names.append(pb.add_root("collection", twin))
+    # an annotation-free collection on the same parent (a contig nobody has annotated yet): same coordinate system and
+    # bounds, no children
+    if rng.random() < 0.18 and parent["mode"] != "none":
+        empty = copy.deepcopy(coll)
+        empty.update(genes=[], feature_collections=[], variant_collections=[])
+        names.append(pb.add_root("collection", empty))
     # variants on the same genome
     if rng.random() < 0.65 and parent["mode"] != "none":
         lo, hi = (parent["chunk"] if parent["mode"] == "chunk" else (0, L))
@@ -813,11 +820,19 @@ def gen_plan(rng, check="C10", size=1, max_steps=60, known_avoid=()):
             chosen = [_pick_op(rng, argops) for _ in range(rng.randint(1, 2))]
             steps = []
             for _ in range(rng.randint(5, 12)):
-                st = pb.call_step(s, target, rng.choice(chosen), store_p=0.05)
+                st = pb.call_step(s, target, rng.choice(chosen), store_p=0.3 if argops is queries else 0.05)
                 if st:
                     steps.append(st)
                     if rng.random() < 0.25:  # and the very same arguments again, later
                         steps.append(copy.deepcopy({k: v for k, v in st.items() if k != "store"}))
+                    if "store" in st and pb.objects[st["store"]]["kind"] == kind and '"$"' not in json.dumps(st.get("args", [])):
+                        # query of a query result: the same window asked of the answer, then of the source again with
+                        # the boolean switches flipped (the result may be empty, cut, or on another coordinate system)
+                        base_ = {k: v for k, v in st.items() if k != "store"}
+                        steps.append(dict(copy.deepcopy(base_), obj=st["store"]))
+                        flipped = copy.deepcopy(base_)
+                        flipped["args"] = [(not a) if isinstance(a, bool) and rng.random() < 0.5 else a for a in flipped["args"]]
+                        steps.append(flipped)
             rng.shuffle(steps) if rng.random() < 0.3 else None
             sessions.append(steps)
     for s in range(nsess):
@@ -872,6 +887,16 @@ def gen_plan(rng, check="C10", size=1, max_steps=60, known_avoid=()):
     # two callers describe a child placed on "the same" location of near-colliding coordinate systems
     for pair in pb.collision_pairs:
         steps = []
+        if rng.random() < 0.5:
+            # the two callers only *use* their locations (lift-overs, ancestor questions, sequence extraction ...), turn
+            # by turn: whatever the process-wide caches key too coarsely shows without the known Parent(location=...) case
+            for _ in range(rng.randint(2, 5)):
+                for n in pair:
+                    st = pb.call_step(len(sessions), n, _pick_op(rng, REGISTRY["location"]), store_p=0.0)
+                    if st and st["op"] != "Parent(location=self)":
+                        steps.append(st)
+            sessions.append(steps)
+            continue
         for n in pair:
             st = pb.call_step(len(sessions), n, BY_NAME["location"]["Parent(location=self)"], store_p=0.6)
             if st:
@@ -889,6 +914,7 @@ def gen_plan(rng, check="C10", size=1, max_steps=60, known_avoid=()):
     # history.  The cheapest history there is; every answer that is computed lazily, validated lazily or served from a
     # cache on the second call has to survive it
     echo_p = rng.choice([0.0, 0.0, 0.08, 0.2, 0.45])
+    cross_p = rng.choice([0.0, 0.0, 0.15, 0.35])
     late_echoes = []
     # lazily consumed answers: operations that return an iterator are, with a per-plan probability, opened as a cursor
     # (first 0-3 items taken), resumed once or twice further down the history (other sessions run in between) and
@@ -932,6 +958,18 @@ def gen_plan(rng, check="C10", size=1, max_steps=60, known_avoid=()):
                         pending.append(dict(copy.deepcopy(base), resume={"cur": cur, "take": take}))
                 elif pending and rng.random() < 0.3:
                     order.append(pending.pop(0))
+                if (cross_p and last.get("t") == "call" and "lazy" not in last and "resume" not in last and '"$"' not in json.dumps(last.get("args", []))
+                        and rng.random() < cross_p):
+                    # the same question with the very same arguments, asked of ANOTHER object of the same kind (a twin,
+                    # a query result, a sibling): whatever is memoised per argument tuple process-wide rather than per
+                    # object leaks between the two
+                    kind_ = pb.objects[last["obj"]]["kind"]
+                    others = [n for n, o in pb.objects.items() if o["kind"] == kind_ and n != last["obj"]]
+                    if others:
+                        base_ = {k: v for k, v in last.items() if k != "store"}
+                        order.append(dict(copy.deepcopy(base_), obj=rng.choice(others)))
+                        if rng.random() < 0.5:
+                            order.append(copy.deepcopy(base_))  # ... and of the first object again
                 if echo_p and order[-1].get("t") == "call" and "lazy" not in order[-1] and "resume" not in order[-1] and rng.random() < echo_p:
                     echo = copy.deepcopy({k: v for k, v in order[-1].items() if k != "store"})
                     if rng.random() < 0.5:
